@@ -24,5 +24,5 @@ pub use iter::*;
 
 /// rayon::current_num_threads()
 pub fn current_num_threads() -> usize {
-    sim::with(|s| s.cfg.workers.max(1))
+    sim::with(|s| if s.in_simulation { s.cfg.workers.max(1) } else { 1 })
 }
